@@ -23,7 +23,7 @@ type fedCase struct {
 	Ops    []opgen.Op     `json:"ops"`
 }
 
-var fedPart = pbt.Part[fedCase]{Name: "fed-equals-monolith", Journal: true, Quick: 15000, Thorough: 60000, Gen: genFed, Check: checkFed}
+var fedPart = pbt.Part[fedCase]{Name: "fed-equals-monolith", Journal: true, Quick: 15000, Thorough: 180000, Gen: genFed, Check: checkFed}
 
 // allowFromEnv re-enables excluded generator classes (C01_ALLOW=a,b) — used only to collect
 // probe cases for known findings, never by the registered checks.
